@@ -169,6 +169,13 @@ def rule_symmetric_schemes(ctx):
     cases = [('leapfrog', 'leapfrog', {}, 'src/integrator_leapfrog.c')]
     kd = dict(C.whfast_kernels())['REB_WHFAST_KERNEL_DEFAULT']
     cases.append(('whfast:default', 'whfast', {'r.ri_whfast.kernel': kd, 'r.ri_whfast.safe_mode': 1, 'r.ri_whfast.is_synchronized': 1}, 'src/integrator_whfast.c'))
+    # ... in every coordinate system (the operator sequence may be selected per system)
+    coords = sorted((v, k) for k, v in C.db()['enums'].items() if k.startswith('REB_WHFAST_COORDINATES_'))
+    anchor(len(coords) >= 4, 'enumerators REB_WHFAST_COORDINATES_*')
+    for v, k in coords:
+        if v != 0:
+            cases.append(('whfast:default:' + k.replace('REB_WHFAST_COORDINATES_', '').lower(), 'whfast',
+                          {'r.ri_whfast.kernel': kd, 'r.ri_whfast.safe_mode': 1, 'r.ri_whfast.is_synchronized': 1, 'r.ri_whfast.coordinates': v}, 'src/integrator_whfast.c'))
     for tname, tv in C.saba_types():
         if tv < 0x100:
             cases.append(('saba:' + tname, 'saba', {'r.ri_saba.type': tv, 'r.ri_saba.safe_mode': 1, 'r.ri_saba.is_synchronized': 1}, 'src/integrator_saba.c'))
@@ -336,6 +343,8 @@ def rule_stale_copies(ctx, rule='R10.10'):
 
 
 def run(ctx):
+    from . import pyrules
+    pyrules.rule_internal_flags(ctx, 'R10.11')     # re-selecting the integrator in use does not disturb the exact integer state
     rule_stale_copies(ctx)
     rule_janus_grid_roundtrip(ctx)
     from . import serial
